@@ -175,17 +175,19 @@ std::vector<Elem> xml_elems(const std::string& s) {
 // mutation operators
 // the nine replacement texts of the design + two integers that std::stoi accepts: one just beyond every count / index of the
 // small base meshes, and INT_MAX (arithmetic on it overflows)
-const char* const VALUE_NAMES[] = {"-1", "0", "4294967296", "20digit", "1e999", "nan", "inf", "abc", "99", "2147483647", "1e5digits"};
-const int N_VALUES = 11;
+// ... two integers that wrap to a small value when multiplied by 3 in 32 bits (1431655765 * 3 = 2^32 - 1, 1431655766 * 3 = 2^32 + 2), and white space
+// that reaches the reader as a text node (character reference, CDATA section) instead of being dropped by the XML parser
+const char* const VALUE_NAMES[] = {"-1", "0", "4294967296", "20digit", "1e999", "nan", "inf", "abc", "99", "2147483647", "1431655765", "1431655766", "charref_space", "cdata_space", "1e5digits"};
+const int N_VALUES = 15;
 std::string value_text(int k) {
     switch (k) { case 0: return "-1"; case 1: return "0"; case 2: return "4294967296"; case 3: return "18446744073709551616"; case 4: return "1e999";
-                 case 5: return "nan"; case 6: return "inf"; case 7: return "abc"; case 8: return "99"; case 9: return "2147483647"; default: return std::string(100000, '9'); }
+                 case 5: return "nan"; case 6: return "inf"; case 7: return "abc"; case 8: return "99"; case 9: return "2147483647"; case 10: return "1431655765"; case 11: return "1431655766"; case 12: return "&#32;"; case 13: return "<![CDATA[ ]]>"; default: return std::string(100000, '9'); }
 }
 // extra replacement texts used by the random multi-mutations only (boundary values of int / short / the point count ...)
 const std::vector<std::string> EXTRA_VALUES = {"2147483647", "2147483648", "715827883", "1000000000", "65536", "32768", "32767", "-0", "1e-999", "0x10", "+5", "3.5",
     "1e5", "1e308", " ", "\t", "1", "2", "3", "4", "5", "7", "8", "11", "12", "13", "15", "16", "23", "24", "42", "49", "50", "-", ".", "e", "1e", "..", "INF", "NaN", "<", ">", "&", "</", "<a>", "\"", "\r"};
 
-enum { TOK_DELETE = 0, TOK_DUP = 1, TOK_EMPTY = 2, TOK_VALUE0 = 3 };      // token / element operators: 3 + N_VALUES = 14
+enum { TOK_DELETE = 0, TOK_DUP = 1, TOK_EMPTY = 2, TOK_VALUE0 = 3 };      // token / element operators: 3 + N_VALUES = 18
 enum { BLK_REMOVE = 0, BLK_DUP = 1, BLK_SWAP = 2 };
 std::string tokop_name(int op) { return op == TOK_DELETE ? "delete" : op == TOK_DUP ? "duplicate" : op == TOK_EMPTY ? "empty" : std::string("val:") + VALUE_NAMES[op - TOK_VALUE0]; }
 std::string blkop_name(int op) { return op == BLK_REMOVE ? "remove" : op == BLK_DUP ? "duplicate" : "swap"; }
@@ -292,7 +294,7 @@ std::string must_reject_class(const World& w, const Fault& f) {
         const bool count_changing = op_in(f.op, {"delete", "duplicate", "empty", "val:abc", "val:nan", "val:inf", "val:1e999"});   // 1e999 reads as the two integers 1 and 999
         if (role == "points_count") return "inconsistent_point_count";
         if (role == "coord" && count_changing) return f.op == TOK_DELETE || f.op == TOK_DUP || f.op == TOK_EMPTY ? "inconsistent_point_count" : "non_numeric_or_non_finite_coordinate";
-        if (role == "face_index" && op_in(f.op, {"val:99", "val:2147483647"})) return "face_refers_to_nonexistent_point";
+        if (role == "face_index" && op_in(f.op, {"val:99", "val:2147483647", "val:1431655765", "val:1431655766"})) return "face_refers_to_nonexistent_point";
         if (role == "cell_len") return "inconsistent_cell_size";
         if (role == "face_count") return "inconsistent_face_count";
         if ((role == "face_len" || role == "face_index") && count_changing) return "inconsistent_cell_size";
@@ -305,7 +307,7 @@ std::string must_reject_class(const World& w, const Fault& f) {
         const Elem x = xml_elems(s)[f.target]; const bool text_elem = x.name == "input_mesh_file_path" || x.name == "output_mesh_folder_path" || x.name == "cell_type_name" || x.name == "face_type_name";
         if (f.op == TOK_EMPTY) return "empty_xml_element";
         if (f.op == TOK_DELETE) return "missing_xml_element";
-        if (op_in(f.op, {"val:abc"}) && !text_elem) return "non_numeric_xml_element";
+        if (op_in(f.op, {"val:abc", "val:charref_space", "val:cdata_space"}) && !text_elem) return "non_numeric_xml_element";
         return "";
     }
     if (f.file == 1 && f.cls == 2 && f.op == BLK_REMOVE) { const Elem x = xml_elems(s)[f.target]; return x.name == "numerical_parameters" || x.name == "cell_types" || x.name == "face_types" ? "missing_xml_section" : ""; }
